@@ -96,3 +96,16 @@ example (K : Keys) : Laws (demoComp K) NoMen ∧ NoMen Board.empty := ⟨demo_la
 end search
 
 end ChessVerif.Props.C07
+
+namespace ChessVerif.Props.C07
+open ChessVerif Pv
+
+/-- **The hand-written `Pv.bufIx` IS the function of /repo/search/pv.go**: on every int8 argument it
+    equals the REGENERATED translation `Gen.Funcs.bufIx` of the Go source (with all of Go's typed
+    wrap-around).  A change of the expression in the repository regenerates `Gen/Funcs.lean` and breaks
+    this theorem, and with it the tie of `bufIx_rows_disjoint` / `pv_flat_refines_rows` to the code. -/
+theorem bufIx_eq_translated :
+    ∀ k : Fin 256, Pv.bufIx ((k.val : Int) - 128) = Gen.Funcs.bufIx ((k.val : Int) - 128) := by
+  decide +kernel
+
+end ChessVerif.Props.C07
